@@ -31,6 +31,13 @@ func vfRandSuite(r *verifkit.Rand, name string) *conformancev1.TestSuite {
 				out = append(out, int32(i))
 			}
 		}
+		// relevance lists are sets written down in any order
+		if r.Bool() {
+			for i := len(out) - 1; i > 0; i-- {
+				j := r.Intn(i + 1)
+				out[i], out[j] = out[j], out[i]
+			}
+		}
 		return out
 	}
 	for _, v := range pick(3) {
@@ -69,6 +76,10 @@ func vfRandSuite(r *verifkit.Rand, name string) *conformancev1.TestSuite {
 		}
 		if r.Chance(1, 8) {
 			req.TestName = fmt.Sprintf("t%d", r.Intn(3)) // flat names too
+		}
+		if r.Chance(1, 10) {
+			// names that also occur as (part of) a suite name or an axis component of the full name
+			req.TestName = verifkit.Pick(r, []string{"2", "false", "true", "Suite", "CODEC_PROTO", "TLS:false", "1/2", "Protocol:PROTOCOL_GRPC/x"})
 		}
 		// fields the expansion owns may be pre-set in the YAML; they must be overwritten per permutation
 		if r.Chance(1, 6) {
